@@ -2,6 +2,7 @@
 from ..common import Ctx, Result
 from .. import memrun
 from . import _mem, _redis
+from . import _rabbit
 from ..common import Failure
 from ..vloop import run_virtual
 
@@ -85,6 +86,7 @@ def run(ctx: Ctx) -> Result:
     _mem.run_histories(ctx, res, "c14", hists, WHICH, rng, nontrivial=nontrivial)
     # Redis client: sequential histories (one consumer at a time: takes are exclusive) ...
     _redis.run_seq(ctx, res, "c14r", {"C14", "C01"}, "any", 100, 2000, rng)
+    _rabbit.run_seq(ctx, res, "c14q", {"C14"}, "any", 100, 2000, rng)
     # ... and consumers with running background tasks on one queue
     outs = []
 
